@@ -100,7 +100,15 @@ def main(argv: list[str] | None = None) -> int:
 
     # confirm hang candidates alone, with a long deadline, before calling them hangs
     hung = 0
-    for case in acc.hang_cases:
+    import itertools
+
+    hang_cases = []
+    for uid, idx in acc.notes.get("hang_units", [])[:8]:
+        c = next(itertools.islice(mod.cases(units[uid]), idx, None), None)
+        if c is not None and c not in hang_cases:
+            hang_cases.append(c)
+    aborted = bool(acc.notes.get("aborted_after_hangs"))
+    for case in hang_cases:
         def _one(c: Any = case) -> Acc:
             a = Acc(mod.ID, seed)
             mod.check_case(c, a)
@@ -113,7 +121,12 @@ def main(argv: list[str] | None = None) -> int:
         else:
             hung += 1
             acc.violation("HANG" if st == "timeout" else f"WORKER-DIED({val})", case)
+            if hung >= 2:
+                break  # two confirmed hangs are enough to report; each costs the full confirmation deadline
     acc.notes["hangs_confirmed"] = hung
+    if aborted and not hung:
+        print(f"HARNESS-ERROR property={mod.ID}: exploration aborted after repeated deadline kills but no case hangs when run alone", file=sys.stderr)
+        return 2
 
     extra = mod.finalize(acc, args.tier) if hasattr(mod, "finalize") else {}
 
@@ -154,7 +167,7 @@ def main(argv: list[str] | None = None) -> int:
             "cases_enumerated": acc.cases,
             "distinct_nontrivial": acc.distinct_nontrivial(),
             "rule": getattr(mod, "RULE", ""),
-            "exhaustive": bool(extra.pop("exhaustive", True)) and hung == 0,
+            "exhaustive": bool(extra.pop("exhaustive", True)) and hung == 0 and not aborted,
             "bound": mod.BOUND[args.tier] if hasattr(mod, "BOUND") else "",
             "breakdown": dict(sorted(acc.counts.items())),
             "known_finding_hits": dict(acc.known),
